@@ -292,6 +292,14 @@ class Normalizer:
 
     def _call(self, e):
         fn = self._fname(e.func)
+        if fn == "sum" and len(e.args) == 1 and not e.keywords and isinstance(e.args[0], (ast.GeneratorExp, ast.ListComp)) and not any(g.ifs for g in e.args[0].generators):
+            # sum(f(v) for a in A for v in a)  ==  the accumulate-in-loop idiom  SUM(SUM(f(v) for v in a) for a in A)
+            inner = e.args[0].elt
+            for g in reversed(e.args[0].generators):
+                inner = ast.Call(func=ast.Name(id="SUM", ctx=ast.Load()), args=[ast.GeneratorExp(elt=inner, generators=[ast.comprehension(target=g.target, iter=g.iter, ifs=[], is_async=0)])], keywords=[])
+            return self._n(inner)
+        if fn == "len" and len(e.args) == 1 and isinstance(e.args[0], ast.Call) and isinstance(e.args[0].func, ast.Attribute) and e.args[0].func.attr == "keys" and not e.args[0].args:
+            return self._n(ast.Call(func=e.func, args=[e.args[0].func.value], keywords=[]))   # len(d.keys()) == len(d)
         args = [self._n(a) for a in e.args]
         kw = sorted((k.arg or "**", self._n(k.value).canon()) for k in e.keywords)
         if fn == "sqrt" and len(args) == 1:
